@@ -57,7 +57,7 @@ def _inow(S, self, date, inow):
 
 
 def spec_secbase_update(S, self, date, data, inow):
-    """exact behaviour of SecurityBase.update (data is None: the legacy `data=` path is outside the contract)"""
+    """exact behaviour of SecurityBase.update"""
     now = S.get(self, "now")
     S.return_if(And(eq(date, now), eq(S.get(self, "_last_pos"), S.get(self, "_position"))))
     i = _inow(S, self, date, inow)
@@ -65,6 +65,11 @@ def spec_secbase_update(S, self, date, data, inow):
         S.set(self, "now", date)
         with S.when(S.get(self, "_prices_set")):
             S.set(self, "_price", S.hist_get(self, "_prices", i))
+        # traditional data update: the price for the date is handed in
+        with S.when(And(Not(S.get(self, "_prices_set")), Not(isnone(data)))):
+            prc = S.dataval(data, self)
+            S.set(self, "_price", prc)
+            S.hist_set(self, "_prices", i, prc)
         with S.when(S.get(self, "_bidoffer_set")):
             S.set(self, "_bidoffer", S.hist_get(self, "_bidoffers", i))
             S.set(self, "_bidoffer_paid", 0.0)
